@@ -21,3 +21,87 @@ func H14a() {
 	vAssert(got == vRefStep(c, b), "C14.step")
 	vReached("end")
 }
+
+// vRef is the bit-serial reference over a byte string.
+func vRef(c uint16, data []byte) uint16 {
+	for _, b := range data {
+		c = vRefStep(c, b)
+	}
+	return c
+}
+
+// vFold is the left fold of the package's own per-byte step, which H14a
+// shows equal to the reference step for every (state, byte). Comparing the
+// streaming interface against this fold keeps the two sides syntactically
+// aligned; comparing against vRef directly is done for short data (H14d).
+func vFold(c uint16, data []byte) uint16 {
+	for _, b := range data {
+		c = uint16(updateByte(crc16(c), b))
+	}
+	return c
+}
+
+// H14b: streaming. For data of length L (parameter) from an arbitrary state:
+// any split into two writes gives the same register as one write, equal to
+// the reference; Write returns (len, nil); Checksum equals the reference from
+// state zero; New and Reset give state zero.
+func H14b() {
+	L := vParam("L")
+	data := make([]byte, L)
+	vBytes(data)
+	k := vInt(0, L)
+	s := vU16()
+
+	one := crc16(s)
+	n, err := one.Write(data)
+	vAssert(n == L && err == nil, "C14.write.returns")
+	vAssert(one.Sum16() == vFold(s, data), "C14.write.fold")
+
+	two := crc16(s)
+	two.Write(data[:k])
+	two.Write(data[k:])
+	vAssert(two.Sum16() == one.Sum16(), "C14.split")
+
+	vAssert(Checksum(data) == vFold(0, data), "C14.checksum")
+
+	h := New()
+	vAssert(h.Sum16() == 0, "C14.new.zero")
+	h.Write(data)
+	vAssert(h.Sum16() == vFold(0, data), "C14.hash.fold")
+	h.Reset()
+	vAssert(h.Sum16() == 0, "C14.reset")
+	vReached("end")
+}
+
+// H14c: residue rule from an arbitrary state: appending the register
+// little-endian zeroes it. (By induction on the data this is the rule for
+// data of any length.)
+func H14c() {
+	s := vU16()
+	c := crc16(s)
+	c.Write([]byte{byte(s), byte(s >> 8)})
+	vAssert(c.Sum16() == 0, "C14.residue")
+	// and it is the only two-byte suffix that does: the step is injective in
+	// the state and the state after one byte determines the second byte.
+	b0, b1 := vByte(), vByte()
+	d := crc16(s)
+	d.Write([]byte{b0, b1})
+	if d.Sum16() == 0 {
+		vAssert(b0 == byte(s) && b1 == byte(s>>8), "C14.residue.unique")
+	}
+	vReached("end")
+}
+
+// H14d: direct comparison of Checksum and the streaming interface with the
+// bit-serial reference for short data (length L).
+func H14d() {
+	L := vParam("L")
+	data := make([]byte, L)
+	vBytes(data)
+	vAssert(Checksum(data) == vRef(0, data), "C14.checksum.ref")
+	s := vU16()
+	c := crc16(s)
+	c.Write(data)
+	vAssert(c.Sum16() == vRef(s, data), "C14.write.ref")
+	vReached("end")
+}
